@@ -35,6 +35,13 @@ func processReadBuf(rb []byte, searchDepth int) []byte {
 
 	partitionIdx := bytes.Index(prb, []byte("\n"))
 
+	// a newline with nothing but whitespace after it ends the last line rather than starting it (a
+	// netconf peer that terminates "]]>]]>" with a newline, say): partitioning there would throw away
+	// the very line the prompt is on, so keep the whole window
+	if partitionIdx > 0 && len(bytes.TrimSpace(prb[partitionIdx:])) == 0 {
+		partitionIdx = -1
+	}
+
 	if partitionIdx > 0 {
 		prb = prb[partitionIdx:]
 	}
